@@ -1446,6 +1446,12 @@ impl<'a, 'b, W: Write> Serializer for &'a mut YamlSerializer<'b, W> {
             if anchored {
                 // `&name` ended the line: the first dash starts a line of its own, indented.
                 self.pending_inline_map = false;
+            } else if inline_first && self.indent_step != 2 {
+                // `- - x` puts the inner dash two columns right of the outer one, while the following
+                // inner dashes are indented by one step: the same column only for a step of 2.
+                // For any other step the nested sequence starts on a line of its own.
+                self.newline()?;
+                self.pending_inline_map = false;
             } else if inline_first {
                 // Keep staged inline (pending_inline_map) so the child can inline its first dash.
                 // Ensure we stay mid-line so the child can emit its first dash inline.
